@@ -58,6 +58,17 @@ def _raised(exc, depth=2):
 
 
 ML_TEXT = [False]
+UNI_TEXT = [False]
+
+
+class UniRepr:
+    """a root / leaf whose repr is not ASCII (task names, file names, user data)"""
+
+    def __init__(self, tok):
+        self.tok = tok
+
+    def __repr__(self):
+        return "<%s na\u00efve \u2192 \u65e5\u672c\u8a9e \U0001f600>" % self.tok
 
 
 class MultiRepr:
@@ -84,6 +95,8 @@ class FalsyRepr:
 
 
 def _text(tok, as_obj):
+    if tok is not None and UNI_TEXT[0]:
+        return UniRepr(tok) if as_obj else "%s(caf\u00e9 \u2192 \u65e5\u672c)" % tok
     if tok is not None and as_obj and not ML_TEXT[0] and tok[-1] in "02468":
         return FalsyRepr(tok)
     if tok is None or not ML_TEXT[0]:
@@ -173,10 +186,12 @@ def combos():
 def run_c18(req):
     init()
     ML_TEXT[0] = bool(req["tree"].get("ml_text"))
+    UNI_TEXT[0] = bool(req["tree"].get("uni_text"))
     try:
         st = build_stack(req["tree"])
     finally:
         ML_TEXT[0] = False
+        UNI_TEXT[0] = False
     out = {"fmt": {}, "raised": None}
     try:
         for a, sc, sh in combos():
